@@ -216,6 +216,17 @@ fn out(r: &Result<cardinalsin::Result<Vec<TimeIndexEntry>>, String>) -> String {
 // ------------------------------------------------------------ generator ----
 fn gen_ts(rng: &mut Rng, class: u64) -> i64 {
     // boundary-biased timestamps: k*H, k*H±1, small, negative, multi-day
+    if class == 3 {
+        // representable extremes: the last / first hour buckets of i64
+        return match rng.below(6) {
+            0 => i64::MAX,
+            1 => i64::MAX - rng.range_i64(0, 2 * H),
+            2 => i64::MIN,
+            3 => i64::MIN + rng.range_i64(0, 2 * H),
+            4 => (i64::MAX / H) * H - rng.range_i64(0, 2),
+            _ => (i64::MAX / H) * H + rng.range_i64(0, 2),
+        };
+    }
     let k = match class {
         0 => rng.range_i64(-3, 6),
         1 => rng.range_i64(-50, 50),
@@ -235,7 +246,10 @@ fn gen_ts(rng: &mut Rng, class: u64) -> i64 {
 }
 
 fn gen_case(rng: &mut Rng, report: &mut Report) -> Vec<Op> {
-    let class = rng.below(3);
+    let class = if rng.chance(1, 12) { 3 } else { rng.below(3) };
+    if class == 3 {
+        report.bump("class.i64_extremes");
+    }
     let npaths = rng.range_usize(1, 5) as u32;
     let nops = rng.range_usize(3, 14);
     let mut ops = Vec::new();
@@ -253,6 +267,7 @@ fn gen_case(rng: &mut Rng, report: &mut Report) -> Vec<Op> {
                 4 => rng.range_i64(24 * H, 80 * H),
                 _ => rng.range_i64(0, H - 1),
             };
+            let span = if class == 3 { span.min(3 * H) } else { span };
             let b = a.saturating_add(span);
             if registered.contains(&p) {
                 report.bump("op.reregister");
@@ -284,11 +299,11 @@ fn gen_case(rng: &mut Rng, report: &mut Report) -> Vec<Op> {
             let a = gen_ts(rng, class);
             let (s, e) = match rng.below(8) {
                 0 => (a, a),                                  // zero-length
-                1 => (a, a - rng.range_i64(1, 2 * H)),        // inverted
+                1 => (a, a.saturating_sub(rng.range_i64(1, 2 * H))), // inverted
                 2 => (a, a.saturating_add(rng.range_i64(24 * H, 100 * H))), // multi-day
                 3 => (i64::MIN, i64::MAX),
-                4 => (a, a + H - 1),
-                _ => (a, a + rng.range_i64(0, 3 * H)),
+                4 => (a, a.saturating_add(H - 1)),
+                _ => (a, a.saturating_add(rng.range_i64(0, 3 * H))),
             };
             if s > e {
                 report.bump("query.inverted");
@@ -306,7 +321,7 @@ fn gen_case(rng: &mut Rng, report: &mut Report) -> Vec<Op> {
     // always end with queries so every history is observed
     for _ in 0..rng.range_usize(1, 3) {
         let a = gen_ts(rng, class);
-        ops.push(Op::Q { s: a - rng.range_i64(0, 2 * H), e: a + rng.range_i64(0, 2 * H) });
+        ops.push(Op::Q { s: a.saturating_sub(rng.range_i64(0, 2 * H)), e: a.saturating_add(rng.range_i64(0, 2 * H)) });
         report.bump("op.query");
     }
     ops.push(Op::L);
@@ -329,6 +344,8 @@ fn corpus() -> Vec<Vec<Op>> {
         vec![r(1, 0, 72 * H), Op::Q { s: 30 * H + 5, e: 30 * H + 6 }, Op::Q { s: 72 * H, e: 73 * H }, Op::Q { s: 72 * H + 1, e: 73 * H }],
         // compaction completion: registered target, unregistered target, target among sources
         vec![r(1, 0, 10), r(2, 20, 30), r(3, 0, 30), Op::C { tgt: 3, srcs: vec![1, 2] }, Op::Q { s: 0, e: 100 }, Op::C { tgt: 9, srcs: vec![3] }, Op::Q { s: 0, e: 100 }, Op::C { tgt: 3, srcs: vec![3] }, Op::Q { s: 0, e: 100 }, Op::L],
+        // last and first representable hour buckets (the bucket loop overflowed i64 before the fix)
+        vec![r(1, i64::MAX - 5, i64::MAX), r(2, i64::MIN, i64::MIN + 5), Op::Q { s: i64::MAX, e: i64::MAX }, Op::Q { s: i64::MIN, e: i64::MIN }, Op::Q { s: i64::MIN, e: i64::MAX }, Op::D { p: 1 }, Op::Q { s: 0, e: i64::MAX }, Op::L],
         // end-point inclusivity
         vec![r(1, 100, 200), Op::Q { s: 200, e: 300 }, Op::Q { s: 201, e: 300 }, Op::Q { s: 0, e: 100 }, Op::Q { s: 0, e: 99 }],
     ]
